@@ -163,17 +163,19 @@ def knownEdgeTypes : List String := ["bonds", "angles", "dihedrals", "cmap", "co
 /-- `make_edges_from_interactions()` -/
 def Mol.makeEdgesAll (m : Mol) : Mol := knownEdgeTypes.foldl Mol.makeEdgesType m
 
-/-- `Molecule.clear()` = `nx.Graph.clear()` + cache reset: nodes, bonds and their attribute dicts
-go; interactions, citations, nrexcl, force field and log entries STAY (finding F-C12-4) -/
-def Mol.clear (m : Mol) : Mol := { m with nodes := [], edges := [], eattr := [], maxNode := none }
+/-- `Molecule.clear()` = `nx.Graph.clear()` + a fresh interaction table + cache reset: nodes, bonds,
+their attribute dicts and the interactions go; citations, nrexcl, force field and log entries stay
+(the repair of F-C12-4: before it the interactions stayed, see `Mol.clearOld` in
+`VermouthProps/C12_Ext.lean`) -/
+def Mol.clear (m : Mol) : Mol := { m with nodes := [], edges := [], eattr := [], inters := [], maxNode := none }
 
 inductive Outcome where
-  | ok | keyerror | valueerror | nxerror | badindex | runtimeerror
+  | ok | keyerror | valueerror | nxerror | badindex
   deriving Repr, DecidableEq, Inhabited
 
 def Outcome.str : Outcome → String
   | .ok => "ok" | .keyerror => "keyerror" | .valueerror => "valueerror"
-  | .nxerror => "nxerror" | .badindex => "badindex" | .runtimeerror => "runtimeerror"
+  | .nxerror => "nxerror" | .badindex => "badindex"
 
 def Mol.addInter (m : Mol) (ty : String) (atoms : List Int) (params : String) (version : Option Int)
     (edge : Bool := true) : Mol × Outcome :=
@@ -453,7 +455,7 @@ def Mol.mergeCore (self other : Mol) (nrexcl : Option Int) (offset roff coff : I
                logs := lg.1 }, if lg.2 then .ok else .keyerror)
   | _, _ => (self, .keyerror)              -- dangling atom in `other` (unreachable under the invariant)
 
-/-- `self.merge_molecule(other)` for two different objects -/
+/-- `self.merge_molecule(other)` once `other` is a different object (see `mergeOperand`) -/
 def Mol.merge (self other : Mol) : Mol × Outcome :=
   if self.ff ≠ other.ff then (self, .valueerror) else
   let nrexcl := mergeNrexcl self other
@@ -461,39 +463,6 @@ def Mol.merge (self other : Mol) : Mol × Outcome :=
   match self.mergeOffs with
   | none => (self, .keyerror)
   | some (offset, roff, coff) => self.mergeCore other nrexcl offset roff coff
-
-/-- `m.merge_molecule(m)` (finding F-C12-5).  The loops of `merge_molecule` iterate over the very
-containers they add to:
-* no atom: the normal path (only the log entries grow);
-* two or more atoms: the first new atom is added (fresh key, shifted copy of the first atom) and
-  the next step of `for node in molecule.nodes()` raises `RuntimeError: OrderedDict mutated during
-  iteration`; nothing else of the merge has happened;
-* exactly one atom `k`: the node loop ends normally (one new atom `k'`).  Without interactions the
-  rest is the normal path, i.e. a correct duplication.  With interactions, the loop over the first
-  non-empty interaction list appends a renamed copy of each of its interactions to that same list,
-  then reaches the first copy, whose atoms are not keys of the correspondence: KeyError.  (The
-  model takes the type of the first interaction for "the first non-empty list"; the order of the
-  type dict is not part of the state, the harness only merges a one-atom molecule into itself when
-  it has interactions of a single type.) -/
-def Mol.selfMerge (m : Mol) : Mol × Outcome :=
-  match m.nodes with
-  | [] => m.merge m
-  | [first] =>
-    match m.inters with
-    | [] => m.merge m
-    | (ty, _) :: _ =>
-      match m.mergeOffs with
-      | some (offset, roff, coff) =>
-        ({ m with nodes := upsert m.nodes (offset + 1) (first.2.shift roff coff),
-                  inters := m.inters ++ (m.inters.filter (fun ti => ti.1 == ty)).map
-                    (fun ti => (ti.1, { ti.2 with atoms := ti.2.atoms.map (fun _ => offset + 1) })),
-                  maxNode := some (offset + 1) }, .keyerror)
-      | none => (m, .keyerror)
-  | first :: _ :: _ =>
-    match m.mergeOffs with
-    | some (offset, roff, coff) =>
-      ({ m with nodes := upsert m.nodes (offset + 1) (first.2.shift roff coff), maxNode := none }, .runtimeerror)
-    | none => (m, .keyerror)
 
 /-! ### Blocks (string node names) -/
 
@@ -646,6 +615,11 @@ def onMol (p : Pool) (i : Nat) (f : Mol → Mol × Outcome) : Pool × Outcome :=
   | none => (p, .badindex)
   | some m => let r := f m; (setAt p i r.1, r.2)
 
+/-- the newcomer of `pool[i].merge_molecule(pool[j])`: `if molecule is self: molecule = self.copy()`
+(the repair of F-C12-5: a molecule merged into itself is merged with a snapshot taken at call time) -/
+def mergeOperand (p : Pool) (i j : Nat) : Option Mol :=
+  if i = j then (p[i]?).map Mol.copy else p[j]?
+
 def fromBlockStep (p : Pool) (b : Block) (ao ro co : Int) : Pool × Outcome :=
   match b.toMolecule ao ro co with
   | some m => (p ++ [m], .ok)
@@ -682,8 +656,7 @@ def step (p : Pool) : Op → Pool × Outcome
         | some s => (p ++ [s], .ok)
         | none => (p, .keyerror)
   | .merge i j =>
-      if i = j then onMol p i Mol.selfMerge else
-      match p[i]?, p[j]? with
+      match p[i]?, mergeOperand p i j with
       | some a, some b => let r := a.merge b; (setAt p i r.1, r.2)
       | _, _ => (p, .badindex)
   | .newMol n ff => (p ++ [{ nrexcl := n, ff := ff }], .ok)
@@ -709,10 +682,11 @@ def mergeFold (acc : Mol) : List Mol → Mol × Outcome
     | (a, .ok) => mergeFold a rest
     | (a, e) => (a, e)
 
-/-- one step of the fold when the operand may be the accumulator object itself (`none`) -/
+/-- one step of the fold when the operand may be the accumulator object itself (`none`): it is then
+merged with a snapshot of itself -/
 def mergeS (acc : Mol) : Option Mol → Mol × Outcome
   | some x => acc.merge x
-  | none => acc.selfMerge
+  | none => acc.merge acc.copy
 
 /-- the same fold when the operand list may mention the accumulator object itself (`none`) -/
 def mergeFoldS (acc : Mol) : List (Option Mol) → Mol × Outcome
@@ -804,7 +778,7 @@ def sstep (st : State) : SOp → State × Outcome
       | some [] => (st, .ok)
       | some (i0 :: rest) =>
         if rest.contains i0 then
-          -- the first molecule is listed again: at that point it is merged into itself
+          -- the first molecule is listed again: at that point it is merged with a snapshot of itself
           match st.pool[i0]?, getMolsS st.pool i0 rest with
           | some m0, some ms =>
             let r := mergeFoldS m0 ms
